@@ -7,11 +7,11 @@
 (c) totality: Datum.tla's Strings generator; every text goes to parsecheck (no panic, spans inside,
     idempotence if accepted) and to the engine (class noncrash).
 
-Isolation.  Steel's `read` keeps unread text in one global buffer (itself a finding), so a case
-that leaves residue would fail its successors on a shared engine.  Every reading case therefore
-(1) starts with a sentinel read that must give 7, (2) ends with a drain loop; round trips of data
-the spec marks `risky` (a symbol that needs |..|) run on an engine of their own, and a case whose
-*sentinel* failed (a victim, not a culprit) is re-run on a fresh engine and judged there.
+Isolation.  Steel's `read` keeps unread / unparsable text in one global buffer (itself a finding),
+so a case that leaves residue would fail its successors on a shared engine.  Every reading case
+therefore (1) starts with a sentinel read that must emit 7, (2) ends with a drain step that empties
+or replaces the buffer; a case whose *sentinel* failed (a victim, not a culprit) is re-run on a
+fresh engine and judged there.
 """
 import hashlib
 import json
@@ -22,11 +22,17 @@ import vlib
 
 PROP = "C12"
 
-DRAIN_DEF = ("(define (c12drain@@ n) (if (> n 0) (if (eof-object? (c12r@@ (c12s@@))) 0 "
-             "(c12drain@@ (- n 1))) 0))")
-SENTINEL = {"src": "(emit (c12r@@ (c12s@@ 55)))", "class": "ok", "emit": ["7"]}
-DRAIN = {"src": "(c12drain@@ 8)", "class": "any"}
-SENTINEL_STEP = 1
+# Un-sticking the reader: `read` from a port that is neither a string nor a file port makes
+# reader.scm replace its global buffer when the buffered text does not parse; the standard output
+# of a finished child process is such a port.  Parseable residue is consumed datum by datum.
+# A clean reader (the probe read gives 7) needs nothing.
+READ7 = "(read (open-input-string (number->string 7)))"
+SENTINEL = f"(emit {READ7}) "
+DRAIN = {"class": "any", "src": (
+    f"(if (equal? 7 {READ7}) 0 (let loop ((n 8)) (if (> n 0) (let ((x (with-handler (lambda (e) (void)) "
+    "(let* ((c (command \"true\" (list))) (u (set-piped-stdout! c)) (ch (Ok->value (spawn-process c))) "
+    "(x (with-handler (lambda (e) (void)) (read (child-stdout ch))))) (wait ch) x)))) "
+    "(if (or (void? x) (eof-object? x)) 0 (loop (- n 1)))) 0)))")}
 
 
 def text_of(codes):
@@ -43,24 +49,28 @@ def sha(s, n=12):
 
 # ----------------------------------------------------------------------------- case construction
 
-def datum_cases(records):
-    """Datum.tla records -> engine cases (one per observation) + the texts for parsecheck."""
+def datum_cases(records, keep=None):
+    """Datum.tla records -> engine cases (one per observation) + the texts for parsecheck.
+    `keep(record)` = False drops a datum (tier sampling, by structure only)."""
     cases, texts, seen = [], {}, set()
     for c in records:
         if c.get("kind") != "datum" or c["ctor"] in seen:
             continue
         seen.add(c["ctor"])
+        if keep is not None and not keep(c):
+            continue
         h = sha(c["ctor"])
         ext = text_of(c["ext"])
         for fam in ("ext", "alt1", "alt2"):
             texts.setdefault(text_of(c[fam]), fam)
-        prelude = {"src": c["prelude"] + DRAIN_DEF, "class": "ok", "emit": []}
         for st in c["steps"]:
-            main = {"src": dec(st["src"]), "class": "ok", "emit": st["emit"]}
-            steps = [prelude, SENTINEL, main, DRAIN] if st["reads"] else [prelude, main]
+            if st["reads"]:
+                steps = [{"src": SENTINEL + dec(st["src"]), "class": "ok", "emit": ["7"] + st["emit"]}, DRAIN]
+            else:
+                steps = [{"src": dec(st["src"]), "class": "ok", "emit": st["emit"]}]
             cases.append({"id": f"d-{h}-{st['name']}", "fresh": False,
                           "tag": f"{st['name']}|{ext}", "steps": steps,
-                          "risky": bool(c["risky"]) and st["name"] == "rt", "reads": st["reads"],
+                          "reads": st["reads"],
                           "nodes": c["nodes"]})
     return cases, texts
 
@@ -75,50 +85,62 @@ def engine_text_case(text):
             "steps": [{"src": text, "class": "noncrash"}]}
 
 
-def read_text_case(text, prelude):
+def read_text_case(text):
     codes = " ".join(str(ord(ch)) for ch in text)
-    return {"id": f"r-{sha(text, 16)}", "fresh": True, "tag": f"read:text|{text}",
-            "steps": [{"src": prelude, "class": "ok"},
-                      {"src": f"(c12r@@ (c12s@@ {codes}))", "class": "noncrash"},
-                      {"src": "(c12r@@ (c12s@@ 55))", "class": "noncrash"}]}
+    return {"id": f"r-{sha(text, 16)}", "fresh": False, "tag": f"read:text|{text}",
+            "steps": [{"src": f"(read (open-input-string (list->string (map integer->char (list {codes})))))",
+                       "class": "noncrash"},
+                      {"src": READ7, "class": "noncrash"}, DRAIN]}
+
+
+def mkstr(text):
+    return "(list->string (map integer->char (list " + " ".join(str(ord(ch)) for ch in text) + ")))"
+
+
+def port_cases(records, rnd, n):
+    """Every port has its own position: `read` from port P gives the next datum of P's text, whatever
+    was read from other ports in between (R7RS 6.13.2).  Composed from simple leaves of the spec
+    (integers, booleans, characters, strings: kinds the other findings do not touch)."""
+    simple = [c for c in records if c.get("kind") == "datum" and c["nodes"] == 1
+              and not any(w in c["ctor"] for w in ("string->symbol", "(/ ", "bytevector", "(list)"))]
+    simple.sort(key=lambda c: c["ctor"])
+    out = []
+    for i in range(n):
+        a, b, d = (rnd.choice(simple) for _ in range(3))
+        t12 = text_of(a["ext"]) + " " + text_of(b["ext"])
+        src = (SENTINEL + f"(define c12p@@ (open-input-string {mkstr(t12)})) "
+               f"(emit (equal? {a['ctor']} (read c12p@@))) "
+               f"(emit (equal? {d['ctor']} (read (open-input-string {mkstr(text_of(d['ext']))})))) "
+               f"(emit (equal? {b['ctor']} (read c12p@@))) (emit (eof-object? (read c12p@@)))")
+        out.append({"id": f"port-{i:04d}", "fresh": False, "tag": f"port|{t12} / {text_of(d['ext'])}", "reads": True,
+                    "steps": [{"src": src, "class": "ok", "emit": ["7", "#true", "#true", "#true", "#true"]}, DRAIN]})
+    return out
 
 
 # ----------------------------------------------------------------------------- running
 
-def run_engine_data(cases, work, rnd, fresh_cap, r):
-    """Round 1 on shared engines (risky round trips on fresh ones, capped by a seeded sample);
-    round 2: victims of foreign residue (sentinel failed) again on fresh engines."""
-    risky = [c for c in cases if c["risky"]]
-    keep = set(c["id"] for c in (rnd.sample(risky, fresh_cap) if len(risky) > fresh_cap else risky))
-    skipped = [c for c in risky if c["id"] not in keep]
-    run = []
-    for c in cases:
-        if c["risky"]:
-            if c["id"] not in keep:
-                continue
-            c = dict(c, fresh=True)
-        run.append(c)
-    # fresh cases last: they cannot disturb and are not disturbed
-    run.sort(key=lambda c: c["fresh"])
+def run_engine_data(cases, work, fresh_cap, r):
+    """Round 1 on shared engines; round 2: victims of foreign residue (sentinel failed) on fresh ones."""
+    run = list(cases)
     verdicts = vlib.replay(run, work, jobs=12, timeout_ms=10000, name="c12a")
     victims = [i for i, (c, v) in enumerate(zip(run, verdicts))
-               if not v["pass"] and c["reads"] and not c["fresh"] and v.get("step") == SENTINEL_STEP]
+               if not v["pass"] and c["reads"] and v.get("step") == 0 and v["got"]
+               and v["got"][0]["class"] == "ok" and v["got"][0]["emit"][:1] != ["7"]]
     if victims:
         vlib.log(f"[c12] {len(victims)} cases met foreign reader residue; re-running them on fresh engines")
-        rerun = victims[:max(fresh_cap, 200)]
+        rerun = victims[:fresh_cap]
         again = [dict(run[i], fresh=True) for i in rerun]
         v2 = vlib.replay(again, work, jobs=12, timeout_ms=10000, name="c12a2")
         for i, c, v in zip(rerun, again, v2):
             run[i] = c
             verdicts[i] = v
         if len(victims) > len(rerun):
-            r.notes.append(f"{len(victims) - len(rerun)} victims of reader residue not re-run (cap)")
-    if skipped:
-        r.notes.append(f"{len(skipped)} risky round-trip cases not run (fresh-engine cap {fresh_cap}, seeded sample)")
+            raise vlib.ToolError(f"{len(victims)} cases were disturbed by reader residue of other cases "
+                                 f"(cap {fresh_cap}): the drain step no longer isolates cases")
     return run, verdicts
 
 
-def selftest(work, sample_w, prelude):
+def selftest(work, sample_w):
     """Non-vacuity: a wrong expectation must be reported by each binding."""
     bad = json.loads(json.dumps(sample_w))
     bad["id"] = "mutant-w"
@@ -127,8 +149,8 @@ def selftest(work, sample_w, prelude):
     if v["pass"]:
         raise vlib.ToolError("self-test: mutant expectation for the written text was not reported")
     m2 = {"id": "mutant-rt", "fresh": True, "tag": "mutant", "steps": [
-        {"src": prelude, "class": "ok"},
-        {"src": "(emit (equal? (list 1 2) (c12r@@ (c12s@@ 40 49 32 51 41))))", "class": "ok", "emit": ["#true"]}]}
+        {"src": "(emit (equal? (list 1 2) (read (open-input-string (list->string (map integer->char (list 40 49 32 51 41)))))))",
+         "class": "ok", "emit": ["#true"]}]}
     v = vlib.replay([m2], work, jobs=1, name="c12mut2")[0]
     if v["pass"]:
         raise vlib.ToolError("self-test: a reader result that is not equal? to the datum was not reported")
@@ -156,10 +178,19 @@ def run(tier, seed):
         res = vlib.run_tlc("Datum", cfg, work, workers=8, timeout=900)
         r.add_tlc(res)
         records += res["cases"]
-    dcases, texts = datum_cases(records)
-    prelude = next(c for c in records if c.get("kind") == "datum")["prelude"]
-    selftest(work, next(c for c in dcases if c["id"].endswith("-w")), prelude)
-    run_cases, verdicts = run_engine_data(dcases, work, rnd, 500 if quick else 6000, r)
+    # budget: data with two or more quotation forms (every such text panics the parser, and a panic
+    # costs the replayer a new engine) and, in the thorough tier, the 5-node data are SAMPLED (seeded)
+    nq = [c["ctor"] for c in records if c.get("kind") == "datum" and c["qn"] >= 2]
+    n5 = [c["ctor"] for c in records if c.get("kind") == "datum" and c["nodes"] >= 5 and c["qn"] < 2]
+    kept = set(rnd.sample(sorted(set(nq)), min(len(set(nq)), 120 if quick else 1500)))
+    kept |= set(rnd.sample(sorted(set(n5)), min(len(set(n5)), 30000)))
+    dropped = len(set(nq) | set(n5)) - len(kept)
+    if dropped:
+        r.notes.append(f"{dropped} data not replayed (seeded sample of the data with >= 2 quotation forms / 5 nodes)")
+    dcases, texts = datum_cases(records, keep=lambda c: (c["qn"] < 2 and c["nodes"] < 5) or c["ctor"] in kept)
+    selftest(work, next(c for c in dcases if c["id"].endswith("-w")))
+    dcases += port_cases(records, rnd, 40 if quick else 400)
+    run_cases, verdicts = run_engine_data(dcases, work, 300, r)
     r.add_cases(run_cases, verdicts)
 
     # ---- (c) texts
@@ -168,11 +199,11 @@ def run(tier, seed):
     strings = {text_of(c["text"]) for c in res["cases"] if c.get("kind") == "text"}
     exhaustive_n = len(strings)
     sim = vlib.run_tlc("Datum", "MC_Datum_strsim.cfg", work, workers=1, timeout=600,
-                       simulate=f"num={3000 if quick else 40000}", seed=seed, extra_java=None)
+                       simulate=f"num={150 if quick else 2500}", seed=seed, extra_java=None)
     strings |= {text_of(c["text"]) for c in sim["cases"] if c.get("kind") == "text"}
     if not quick:
         sim2 = vlib.run_tlc("Datum", "MC_Datum_strsimbig.cfg", work, workers=1, timeout=600,
-                            simulate="num=10000", seed=seed + 1)
+                            simulate="num=500", seed=seed + 1)
         strings |= {text_of(c["text"]) for c in sim2["cases"] if c.get("kind") == "text"}
     strings = sorted(strings, key=lambda s: (len(s), s))
     r.notes.append(f"texts: {exhaustive_n} exhaustive + {len(strings) - exhaustive_n} sampled (longer)")
@@ -189,7 +220,8 @@ def run(tier, seed):
     r.add_cases(pcases, pverd, nontrivial=lambda c: len(c["steps"][0]["src"]) > 0)
 
     # ---- (c) engine level: compile+run never panics / aborts / hangs
-    ecases = [engine_text_case(t) for t in strings if "@@" not in t]
+    # (the Strings texts and, as program text, every text the spec produced for a datum)
+    ecases = [engine_text_case(t) for t in strings + sorted(set(texts) - set(strings)) if "@@" not in t]
     everd = vlib.replay(ecases, work, jobs=12, timeout_ms=10000, name="c12e")
     r.add_cases(ecases, everd, nontrivial=lambda c: len(c["steps"][0]["src"]) > 0)
 
@@ -197,7 +229,7 @@ def run(tier, seed):
     short = [t for t in strings if 0 < len(t) <= 2]
     if quick and len(short) > 150:
         short = rnd.sample(short, 150)
-    rcases = [read_text_case(t, prelude) for t in short]
+    rcases = [read_text_case(t) for t in short]
     rverd = vlib.replay(rcases, work, jobs=12, timeout_ms=10000, name="c12r")
     r.add_cases(rcases, rverd)
 
